@@ -28,8 +28,9 @@ func run(c perco.GCase, r *pbt.Rec) error {
 
 func TestCheck(t *testing.T) {
 	s := &pbt.Suite{ID: "C18", Level: "exploration",
-		Rule: "Same history machine as C17 with an adversarial mix (verbatim re-sends of earlier requests, late prewrites, commits/rollbacks/resolves of arbitrary key subsets in any order, CheckTxnStatus around expiry with and without rollback-if-not-exist, up to 5 transactions contending for 1-4 keys). Oracles: (1) a Commit/ResolveLock-commit that names a key the transaction already rolled back returns a key error; (2) any request the model classifies as changing nothing (repeat of an applied request, rollback after commit, commit after rollback, commit without lock, status check without effect) leaves locks, min-commit-ts, write records and rollback records of the whole DB unchanged (full internal-iterator dump before/after; plus prewritten data for verbatim re-sends); (3) after every step the set of committed write records (key,kind,start,commit) read from the DB equals the model's, so a refused/rolled-back transaction leaves no write and a committed one is never undone; (4) no key ever has two committed put/delete records with overlapping [start,commit]; (5) a prewrite must be refused when the key is locked by another transaction, when a newer committed put/delete overlaps, or when the transaction is already decided on the key. Non-trivial = the history contains at least one adversarial ordering whose second request reached the engine (labels adv:*); distinct by case content.",
+		Rule: "Same history machine as C17 with an adversarial mix (verbatim re-sends of earlier requests, late prewrites, commits/rollbacks/resolves of arbitrary key subsets in any order, CheckTxnStatus around expiry with and without rollback-if-not-exist, up to 5 transactions contending for 1-4 keys). Oracles: (1) a Commit/ResolveLock-commit that names a key the transaction already rolled back returns a key error; (2) any request the model classifies as changing nothing (repeat of an applied request, rollback after commit, commit after rollback, commit without lock, status check without effect) leaves locks, min-commit-ts, write records and rollback records of the whole DB unchanged (full internal-iterator dump before/after; plus prewritten data for verbatim re-sends); (3) after every step the set of committed write records (key,kind,start,commit) read from the DB equals the model's, so a refused/rolled-back transaction leaves no write and a committed one is never undone; (4) no key ever has two committed put/delete records with overlapping [start,commit]; (5) a prewrite must be refused when the key is locked by another transaction, when a newer committed put/delete overlaps, or when the transaction is already decided on the key. Partial requests: a hotlimit step sets Options.WriteHotKeyLimit so that a Commit is refused between its two engine writes (commit record written, lock removal refused with ErrHotKeyWriteThrottle, response Retryable) and lifts it again; after a Retryable response the model re-reads lock and write records of the touched keys from the store and every later request (rollback / resolve / check-txn-status / re-applied commit on the leftover lock) is judged against that state. Non-trivial = the history contains at least one adversarial ordering whose second request reached the engine (labels adv:*); distinct by case content.",
 		Assumptions: []string{
+			"a request answered with a Retryable key error took effect as a prefix of its engine writes; its response and partial effect are not judged (the model resynchronises from the store), all later requests are",
 			"'once any key is rolled back, committing fails' is judged per key: a Commit fails iff it names a rolled-back key; cross-key atomicity is the client protocol's job (primary first), no single-key state machine can refuse Commit(a) because b was rolled back",
 			"batch requests are applied key by key in request order up to the first key error (what kv.Apply does and its callers observe)",
 			"where the properties do not fix a response (prewrite above a foreign rollback/lock-only record, commit of a never-prewritten key, BatchRollback/CheckTxnStatus error details) the model follows the observed response and only the resulting state is compared",
